@@ -250,6 +250,9 @@ class Ctx:
 
     def finish(self, coverage, assumptions=None, level=None):
         os.makedirs(os.path.join(EVID, 'replay'), exist_ok=True)
+        for fn in os.listdir(os.path.join(EVID, 'replay')):
+            if fn.startswith(self.prop + '-'):
+                os.remove(os.path.join(EVID, 'replay', fn))
         for h in self.known_hits:
             print('KNOWN-FINDING: property=%s %s: %s (x%d)' % (self.prop, h['id'], h['what'], h['count']))
         rc = 0
